@@ -33,6 +33,10 @@ RULES = {
 def run(ck, m):
     _run(ck, m)
     stamp_rule(ck, m)
+    from nl import alias as _alias19b
+    ck.rule('C19.l', 'every node applies every replicated write (C04.g, repeated): the receiver of a replicated set calls the store on every path — a copy '
+                     'skipped because "the key has moved past that version" is exactly the stale write the primary resolved and accepted')
+    _alias19b.repeat(ck, m, 'C04', ('C04.g',), 'C19.l', key_filter=lambda k: 'applies-unconditionally' in k)
     # watchers are told exactly what was stored: C03.a (every committed write is followed by a notification of the written operands),
     # C03.g (the notifier re-reads nothing) and C03.j (only the mutators notify), repeated — the Newer resolution commits through the same store
     from nl import alias as _alias19
